@@ -14,6 +14,18 @@ def main():
     ap.add_argument("--replay")
     ap.add_argument("--jobs", type=int, default=int(os.environ.get("VERIF_JOBS", "16")))
     a = ap.parse_args()
+    if "PYTHONHASHSEED" not in os.environ:
+        # reproducibility: set/dict iteration order inside pharmpy depends on the hash seed; derive it from the run's seed
+        # (a replay uses the seed recorded in the replay file) and start again under it
+        hs = a.seed
+        if a.replay:
+            try:
+                import json
+                hs = int(json.load(open(a.replay)).get("seed", hs))
+            except Exception:
+                pass
+        os.environ["PYTHONHASHSEED"] = str(hs % 4294967295)
+        os.execv(sys.executable, [sys.executable, "-m", "harness.check"] + sys.argv[1:])
     try:
         rc = runner.main(a.prop.upper(), a.tier, a.seed, a.replay, a.jobs)
     except SystemExit:
